@@ -134,6 +134,10 @@ func c18Context(n parser.QueryExpression) (func(s string) string, bool) {
 			return func(s string) string { return "SELECT 1 FROM " + s }, true
 		}
 	}
+	if t, ok := n.(parser.Table); ok && !t.Lateral.IsEmpty() {
+		// LATERAL is only allowed after another table
+		return func(s string) string { return "SELECT 1 FROM t, " + s }, true
+	}
 	switch n.(type) {
 	case parser.SelectQuery, parser.SelectEntity, parser.SelectSet, parser.SelectClause:
 		return func(s string) string { return s }, true
